@@ -515,7 +515,20 @@ class Ctx:
 
     def _skip(self):
         """fail-fast mode (canary runs): once an obligation has failed on this path the remaining ones are not evaluated"""
-        return bool(self.o.get('fail_fast')) and any(ob['res'] not in ('unsat', 'ground-ok') for ob in self.obligations)
+        if self.o.get('fail_fast'):
+            return any(ob['res'] not in ('unsat', 'ground-ok') for ob in self.obligations)
+        # a path with many refuted obligations is not going to end as "held": the first few carry the counterexamples, the rest would only cost solver time
+        nbad = getattr(self, '_nbad', (0, 0))
+        if nbad[0] != len(self.obligations):
+            nbad = (len(self.obligations), nbad[1] + sum(1 for ob in self.obligations[nbad[0]:] if ob['res'] in ('sat', 'ground-fail')))
+            self._nbad = nbad
+        if nbad[1] >= int(self.o.get('max_refuted', 8)):
+            if not getattr(self, '_skipping', False):
+                self._skipping = True
+                self.obligations.append(dict(label='remaining obligations of this path not evaluated after %d refuted ones' % nbad[1], res='skipped', path=''.join('TF'[not x] for x in self.decisions[:self.pos])))
+                self._nbad = (len(self.obligations), nbad[1])
+            return True
+        return False
 
     def _ckey(self, label, bump=True):
         if not hasattr(self, '_occ'):
